@@ -10,6 +10,7 @@ use primitive_types::U256;
 use rayon::prelude::*;
 use serde::{Deserialize, Serialize};
 
+use crate::core::consensus::golden_ticket::GOLDEN_TICKET_SIZE;
 use crate::core::consensus::hop::{Hop, HOP_SIZE};
 use crate::core::consensus::slip::{Slip, SlipType, SLIP_SIZE};
 use crate::core::consensus::wallet::Wallet;
@@ -993,6 +994,14 @@ impl Transaction {
                     return false;
                 }
             }
+        }
+
+        // a golden ticket transaction carries exactly one serialized golden ticket
+        if self.transaction_type == TransactionType::GoldenTicket
+            && self.data.len() != GOLDEN_TICKET_SIZE
+        {
+            error!("ERROR: golden ticket transaction with malformed payload");
+            return false;
         }
 
         // Fee Transactions are validated in the block class. There can only
